@@ -12,7 +12,8 @@ REPO = os.environ.get("VERIF_REPO", "/repo")
 SPECS = os.path.join(VERIF, "specs")
 HARNESS = os.path.join(VERIF, "harness")
 OUT = os.path.join(VERIF, "out")
-EVID = os.path.join(VERIF, "evidence")
+# evidence is only ever written for the repository itself; runs against a scratch copy (mutation self-test) keep theirs apart
+EVID = os.path.join(VERIF, "evidence") if REPO == "/repo" else os.path.join(OUT, "evidence-scratch")
 BIN = os.path.join(OUT, "bin")
 NCPU = os.cpu_count() or 4
 
@@ -44,6 +45,8 @@ def rundir(name):
         for f in os.listdir(rd):
             if f.startswith(name + "-"):
                 os.remove(os.path.join(rd, f))
+    if REPO != "/repo":
+        name = "scratch-" + name
     d = os.path.join(OUT, name)
     shutil.rmtree(d, ignore_errors=True)
     os.makedirs(d, exist_ok=True)
